@@ -245,7 +245,31 @@ def _hash(x):
 def _max(*a, **k):
     return builtins.max(*a, **k)
 
-_CALLS = {'isinstance': _isinst, 'type': None, 'str': _str, 'int': _int, 'bool': _bool, 'set': _set,
+class SymStringIO:
+    """io.StringIO over a symbolic string (read side only)"""
+    def __init__(self, s=''):
+        self.s = s; self.pos = 0
+    def read(self, n=-1):
+        if n is None or n < 0: n = len(self.s) - self.pos
+        r = self.s[self.pos:self.pos + n]; self.pos += len(r)
+        return r
+    def readline(self):
+        i = self.pos
+        while i < len(self.s):
+            i += 1
+            if decide(bt_any(self.s[i - 1] == '\n')): break
+        r = self.s[self.pos:i]; self.pos = i
+        return r
+    def __iter__(self):
+        while self.pos < len(self.s): yield self.readline()
+    def close(self): pass
+
+def _stringio(*a, **k):
+    import io
+    if a and isinstance(a[0], SymStr): return SymStringIO(a[0])
+    return io.StringIO(*a, **k)
+
+_CALLS = {'StringIO': _stringio, 'isinstance': _isinst, 'type': None, 'str': _str, 'int': _int, 'bool': _bool, 'set': _set,
           'frozenset': _frozenset, 'ord': _ord, 'chr': _chr, 'hash': _hash, 'repr': _repr}
 
 def sx_call(name, /, *a, **k):
@@ -373,7 +397,7 @@ def sx_set(*items):
 SHIMS = dict(sx__call=sx_call, sx__in=sx_in, sx__getitem=sx_getitem, sx__fmt=sx_fmt, sx__fstr=sx_fstr,
              sx__mod=sx_mod, sx__meth=sx_meth, sx__set=sx_set, sx__re=RE_SHIM)
 
-WRAP_CALLS = {'isinstance', 'int', 'str', 'bool', 'hash', 'repr', 'type', 'set', 'frozenset', 'ord', 'chr'}
+WRAP_CALLS = {'StringIO', 'isinstance', 'int', 'str', 'bool', 'hash', 'repr', 'type', 'set', 'frozenset', 'ord', 'chr'}
 
 # ------------------------------------------------------------------ transformer
 class Tr(ast.NodeTransformer):
@@ -494,4 +518,7 @@ class Finder(importlib.abc.MetaPathFinder):
         return spec
 
 def install(prefixes=('mesonbuild.',), exact=('mesonbuild',)):
+    for name in list(sys.modules):
+        if name in exact or name.startswith(tuple(prefixes)):
+            del sys.modules[name]      # make sure the instrumented version is the one that gets used
     sys.meta_path.insert(0, Finder(prefixes, exact))
